@@ -80,6 +80,43 @@ theorem getLosses_set (s : List Char) (losses : List LossRule) (m : Int) :
 
 example : applicableList ['A', 'A'] [(.cls ['A'], -10), (.cls ['A'], -5)] = [-10, -10, -5, -5] := by decide
 
+/-- applicability per span: only the number of matches of a rule's pattern on the span's residues matters (whether
+that number is counted in Lean — character classes — or supplied by the implementation's `re.findall` —
+`Pat.opaque`), and a rule without a match on the span contributes nothing -/
+theorem unmatched_rules_irrelevant (s : List Char) (rules : List LossRule) (m : Int) :
+    getLosses s rules m = getLosses s (rules.filter fun r => decide (0 < r.1.count s)) m := by
+  unfold getLosses
+  rw [← applicableList_filter]
+
+/-- one rule on a span with `c` matches: its loss may be taken `i` times, `1 ≤ i ≤ min(c, max(1, max_losses))` -/
+theorem one_rule_applicability (s : List Char) (r : LossRule) (m : Int) (x : Rat) :
+    x ∈ getLosses s [r] m ↔
+      x = 0 ∨ ∃ i : Nat, 1 ≤ i ∧ i ≤ r.1.count s ∧ (i : Int) ≤ max 1 m ∧ x = (i : Rat) * r.2 :=
+  getLosses_one_rule s r m x
+
+/-- the residue-class tests of the two built-in rules are inside the model: `'[STED]'` / `'[RKNQ]'` count the residues
+of the class -/
+theorem builtin_patterns (s : List Char) :
+    waterPat.count s = (s.filter fun c => decide (c ∈ ['S', 'T', 'E', 'D'])).length ∧
+    ammoniaPat.count s = (s.filter fun c => decide (c ∈ ['R', 'K', 'N', 'Q'])).length :=
+  ⟨rfl, rfl⟩
+
+/-- `water_loss=True, ammonia_loss=True`, no custom rules: on a span with `nw` residues in S/T/E/D and `na` residues
+in R/K/N/Q the applicable losses are exactly 0 and `i·(−18.01056) + j·(−17.02655)` with `i ≤ nw`, `j ≤ na`,
+`1 ≤ i + j ≤ max(1, max_losses)`. -/
+theorem builtin_losses (s : List Char) (args : Args) (hl : args.losses = none) (hw : args.waterLoss = true)
+    (ha : args.ammoniaLoss = true) (x : Rat) :
+    x ∈ getLosses s (lossList args) args.maxLosses ↔
+      x = 0 ∨ ∃ i j : Nat, 1 ≤ i + j ∧ i ≤ waterPat.count s ∧ j ≤ ammoniaPat.count s ∧
+        ((i + j : Nat) : Int) ≤ max 1 args.maxLosses ∧
+        x = (i : Rat) * waterLossValue + (j : Rat) * ammoniaLossValue := by
+  have : lossList args = [(waterPat, waterLossValue), (ammoniaPat, ammoniaLossValue)] := by
+    simp [lossList, hl, hw, ha]
+  rw [this]
+  exact getLosses_two_rules s _ _ _ x
+
+example : waterPat.count ['A', 'Q', 'E'] = 1 ∧ ammoniaPat.count ['A', 'Q', 'E'] = 1 := by decide
+
 /-! ## 3. `fragment` never reaches the error of `get_number`; exactly one ion per requested key -/
 
 /-- On a peptide without sequence ambiguity `fragment` returns normally, and its result is one pass of the loop body
